@@ -167,7 +167,8 @@ pub fn history(rng: &mut Rng, c: &Corpus, deep: bool) -> Circuit {
                 14 => R1Op::Double(ix(rng)),
                 15 => R1Op::Select(ix(rng), ix(rng), ix(rng)),
                 16 => R1Op::ScalarMul(ix(rng), rng.below(40) as u16, mode(rng)),
-                17 | 18 => R1Op::IsEq(ix(rng), ix(rng)),
+                17 => R1Op::IsEq(ix(rng), ix(rng)),
+                18 => R1Op::IsZero(ix(rng)),
                 19 => R1Op::EnforceEq(ix(rng), ix(rng)),
                 20 => R1Op::EnforceNe(ix(rng), ix(rng)),
                 21 => R1Op::CondEnforceEq(ix(rng), ix(rng), ix(rng)),
@@ -215,6 +216,19 @@ pub fn history(rng: &mut Rng, c: &Corpus, deep: bool) -> Circuit {
             4 => R1Op::CondEnforceEq(ix(rng), LAST, i),
             _ => R1Op::EnforceNe(LAST, i),
         });
+    }
+    // P and -P allocated separately, summed, then the identity test: the sum is often the (0,-1) representative
+    if rng.chance(1, 4) {
+        let k = scalar(rng);
+        let m = mode(rng);
+        ops.push(R1Op::AllocElem { mode: m, src: ESrc::MulNegGen(k.clone()) });
+        ops.push(R1Op::AllocElem { mode: mode(rng), src: ESrc::NegMulGen(k.clone()) });
+        // NegMulGen(k) = -(kB), MulNegGen(k) = (-k)B: the same element; subtracting gives the identity class
+        ops.push(R1Op::CloneVar(LAST));
+        ops.push(R1Op::Negate(LAST));
+        // last = -(-(kB)) = kB ; previous-but-two = (-k)B ; sum = identity, possibly as (0,-1)
+        ops.push(R1Op::AddConst(LAST, ESrc::MulNegGen(k)));
+        ops.push(R1Op::IsZero(LAST));
     }
     let nd = rng.range(0, 2) as usize;
     let digest_steps = (0..nd).map(|_| rng.usize_below(ops.len())).collect();
@@ -286,6 +300,7 @@ pub fn enc_sub(rng: &mut Rng, c: &Corpus) -> EncSub {
     match rng.below(6) {
         0 | 1 => EncSub::Honest,
         2 => EncSub::EncodeOf(esrc(rng, c)),
+        3 => EncSub::NegHonest,
         _ => EncSub::Raw(encoding_value(rng, c, (2, 3))),
     }
 }
